@@ -77,7 +77,7 @@ fn mk_policy(name: &str, cap: u64) -> Box<dyn CachePolicy<u64, u64>> {
 
 // ------------------------------------------------------------------ recording listener
 #[derive(Default)]
-struct Lis { events: Mutex<Vec<(u64, u64, char)>>, count: AtomicUsize, gate_closed: AtomicBool, in_flight: AtomicBool }
+struct Lis { events: Mutex<Vec<(u64, u64, char)>>, cv: std::sync::Condvar, count: AtomicUsize, gate_closed: AtomicBool, in_flight: AtomicBool }
 struct RecListener(Arc<Lis>);
 impl EvictionListener<u64, u64> for RecListener {
   fn on_evict(&self, key: u64, value: Arc<u64>, reason: EvictionReason) {
@@ -89,8 +89,11 @@ impl EvictionListener<u64, u64> for RecListener {
       self.0.in_flight.store(false, Ordering::SeqCst);
     }
     let r = match reason { EvictionReason::Capacity => 'C', EvictionReason::Expired => 'E', EvictionReason::Invalidated => 'I' };
-    self.0.events.lock().unwrap().push((key, vid, r));
+    let mut g = self.0.events.lock().unwrap();
+    g.push((key, vid, r));
     self.0.count.fetch_add(1, Ordering::SeqCst);
+    drop(g);
+    self.0.cv.notify_all();
   }
 }
 
@@ -167,7 +170,7 @@ struct Shadow {
 }
 
 struct Runner { cfg: Cfg, env: Env, c: C, ac: AC, lis: Arc<Lis>, lis_seen: usize, gate_sends: usize, sh: Shadow, tr: Tr, now: u64,
-  held: Vec<Arc<u64>>, snap_bytes: Option<Vec<u8>>, fails: Vec<(String, String)>, nkeys: u64, spurious: bool,
+  held: Vec<Arc<u64>>, snap_bytes: Option<Vec<u8>>, fails: Vec<(String, String)>, nkeys: u64, spurious: bool, case_id: String,
   occupied_before: BTreeMap<u64, bool>, expected_loads: u64, gate_pending: Vec<Removal> }
 
 fn bo<F: std::future::Future>(f: F) -> F::Output { futures_executor::block_on(f) }
@@ -185,7 +188,7 @@ impl Runner {
     let sh = Shadow { latest: BTreeMap::new(), vids: HashMap::new(), stale_timers: BTreeMap::new(), pending: vec![VecDeque::new(); cfg.shards], overflowed: false,
       adv: vec![0; cfg.shards], notified: BTreeSet::new(), cap_pass_mismatch: false, restored: false };
     let tr = Tr::new(id, &cfg.header());
-    Runner { now: cfg.t0, cfg, env, c, ac, lis, lis_seen: 0, gate_sends: 0, sh, tr, held: vec![], snap_bytes: None, fails: vec![], nkeys, spurious: false, occupied_before: BTreeMap::new(), expected_loads: 0, gate_pending: vec![] }
+    Runner { now: cfg.t0, cfg, env, c, ac, lis, lis_seen: 0, gate_sends: 0, sh, tr, held: vec![], snap_bytes: None, fails: vec![], nkeys, spurious: false, case_id: id.to_string(), occupied_before: BTreeMap::new(), expected_loads: 0, gate_pending: vec![] }
   }
   fn fail(&mut self, sig: &str, msg: String) { if !self.fails.iter().any(|f| f.0 == sig) { self.fails.push((sig.to_string(), msg)); } }
   fn shard(&self, k: u64) -> usize { (k % self.cfg.shards as u64) as usize }
@@ -354,15 +357,16 @@ impl Runner {
         let stale_expected = r != v && self.sh.latest.get(&k).map_or(false, |b| b.vid == r && b.exp.map_or(false, |e| self.now >= e));
         if stale_expected {
           let t0 = Instant::now();
-          while self.env.loads.load(Ordering::SeqCst) == l0 && t0.elapsed() < Duration::from_secs(2) { std::thread::yield_now(); }
-          if passive { while self.c.metrics().inserts == ins0 && t0.elapsed() < Duration::from_secs(2) { std::thread::yield_now(); } std::thread::sleep(Duration::from_micros(400)); }
-          else { std::thread::sleep(Duration::from_millis(3)); }
+          while self.env.loads.load(Ordering::SeqCst) == l0 && t0.elapsed() < Duration::from_secs(20) { std::thread::sleep(Duration::from_micros(20)); }
+          // the refreshed entry is fresh, so `peek` (no side effect) shows it as soon as it is in the map
+          while self.c.peek(&k).map(|a| *a) != Some(v) && t0.elapsed() < Duration::from_secs(20) { std::thread::sleep(Duration::from_micros(20)); }
+          let _ = ins0;
         }
         // the loader thread keeps an `Arc` to the loaded value (inside its LoadFuture) until it exits:
         // wait until the map's and ours are the only ones (peek has no side effect)
         if self.env.loads.load(Ordering::SeqCst) > l0 {
           let t0 = Instant::now();
-          loop { match self.c.peek(&k) { Some(a) if Arc::strong_count(&a) > 2 + self.held.iter().filter(|h| Arc::ptr_eq(h, &a)).count() && t0.elapsed() < Duration::from_secs(2) => std::thread::yield_now(), _ => break } }
+          loop { match self.c.peek(&k) { Some(a) if Arc::strong_count(&a) > 2 + self.held.iter().filter(|h| Arc::ptr_eq(h, &a)).count() && t0.elapsed() < Duration::from_secs(20) => std::thread::sleep(Duration::from_micros(20)), _ => break } }
         }
         let loads = self.env.loads.load(Ordering::SeqCst) - l0;
         self.expected_loads = l0 + loads;
@@ -520,13 +524,14 @@ impl Runner {
         + (m1.evicted_by_capacity - m0.evicted_by_capacity).saturating_sub(ev_victims) + cap_pass_removed.len() as u64 };
       if name == "gate" && t.get(1) == Some(&"open") { sends = self.gate_sends.min(129) as u64; self.gate_sends = 0; }
       if self.lis.gate_closed.load(Ordering::SeqCst) {
-        if self.gate_sends == 0 && sends > 0 { let t0 = Instant::now(); while !self.lis.in_flight.load(Ordering::SeqCst) && t0.elapsed() < Duration::from_secs(2) { std::thread::yield_now(); } }
+        if self.gate_sends == 0 && sends > 0 { let t0 = Instant::now(); while !self.lis.in_flight.load(Ordering::SeqCst) && t0.elapsed() < Duration::from_secs(20) { std::thread::sleep(Duration::from_micros(50)); } }
         self.gate_sends += sends as usize;
       } else {
         let want = self.lis_seen + sends as usize;
         let t0 = Instant::now();
-        while self.lis.count.load(Ordering::SeqCst) < want && t0.elapsed() < Duration::from_secs(2) { std::thread::yield_now(); }
-        let ev = self.lis.events.lock().unwrap();
+        let mut ev = self.lis.events.lock().unwrap();
+        while ev.len() < want && t0.elapsed() < Duration::from_secs(20) { ev = self.lis.cv.wait_timeout(ev, Duration::from_millis(200)).unwrap().0; }
+        if t0.elapsed() > Duration::from_secs(1) { eprintln!("cacheh: waited {:?} for the notifier thread ({} of {} delivered) in case {}", t0.elapsed(), ev.len() - self.lis_seen.min(ev.len()), sends, self.case_id); }
         notifs = ev[self.lis_seen.min(ev.len())..].to_vec();
         drop(ev);
         if notifs.len() != sends as usize { self.fail("listener:delivered-count-differs-from-removals-counted-by-metrics", format!("{op}: metrics/policy log imply {sends} notifications, listener got {}", notifs.len())); }
